@@ -3798,13 +3798,16 @@ class PyCdlib:
         joliet_child = self._find_joliet_dir_to_remove(joliet_path)
 
         num_bytes_to_remove = joliet_child.get_data_length()
-        num_bytes_to_remove += self._remove_child_from_dr(joliet_child,
-                                                          joliet_child.index_in_parent)
 
+        # The Volume Descriptor may refuse to give up the space of the Path
+        # Table Record, so do that before the directory is taken out.
         if joliet_child.ptr is None:
             raise pycdlibexception.PyCdlibInternalError('Joliet directory has no path table record; this should not be')
         if self.joliet_vd.remove_from_ptr_size(path_table_record.PathTableRecord.record_length(joliet_child.ptr.len_di)):
             num_bytes_to_remove += 4 * self.logical_block_size
+
+        num_bytes_to_remove += self._remove_child_from_dr(joliet_child,
+                                                          joliet_child.index_in_parent)
 
         return num_bytes_to_remove
 
@@ -5428,7 +5431,7 @@ class PyCdlib:
         # nothing has been changed yet.
         if joliet_path is not None:
             joliet_path_bytes = self._normalize_joliet_path(joliet_path)
-            self._find_joliet_dir_to_remove(joliet_path_bytes)
+            joliet_child = self._find_joliet_dir_to_remove(joliet_path_bytes)
 
         if udf_path is not None:
             if self.udf_root is None:
@@ -5450,6 +5453,23 @@ class PyCdlib:
 
             if udf_ident.file_entry is not None and len(udf_ident.file_entry.fi_descs) > 1:
                 raise pycdlibexception.PyCdlibInvalidInput('Directory must be empty to use rm_directory')
+
+        # The Volume Descriptors may refuse to give up the space of a Path
+        # Table Record; find that out before anything is changed, too.
+        if iso_path is not None:
+            ptr_sizes = []
+            if child.ptr is not None:
+                ptr_sizes.append(path_table_record.PathTableRecord.record_length(child.ptr.len_di))
+            if child.rock_ridge is not None and child.rock_ridge.relocated_record():
+                # The relocation directory goes away with the last directory
+                # in it (see below).
+                if child.parent is not None and len(child.parent.children) == 3 and child.parent.ptr is not None:
+                    ptr_sizes.append(path_table_record.PathTableRecord.record_length(child.parent.ptr.len_di))
+            for pvd in self.pvds:
+                pvd.check_remove_from_ptr_size(ptr_sizes)
+
+        if joliet_path is not None and self.joliet_vd is not None and joliet_child.ptr is not None:
+            self.joliet_vd.check_remove_from_ptr_size([path_table_record.PathTableRecord.record_length(joliet_child.ptr.len_di)])
 
         if iso_path is not None:
             num_bytes_to_remove += self._remove_child_from_dr(child,
